@@ -23,15 +23,18 @@ from pbt.core import Result, silence, exc_sig
 ID = "C34"
 LEVEL = "exploration"
 EXHAUSTIVE = True
-EXAMPLES = {"quick": 160, "thorough": 12000}
+EXAMPLES = {"quick": 160, "thorough": 10000}
 DEADLINE_S = {"quick": 900, "thorough": 3000}
-SHRINK_S = {"quick": 15, "thorough": 60}
+SHRINK_S = {"quick": 8, "thorough": 40}
 TECHNIQUE = ("property-based testing: itertools enumeration of a finite configuration space (all 9 stored/passed states "
              "of every parameter and every parameter pair) + Hypothesis-drawn full assignments; differential oracle")
 RULE = ("Case = {stored: {param: value}, passed: {param: value}} over the 26 runpp parameters (15 named, 11 documented "
         "kwargs), values concrete (function default or non-default; the state 'stored non-default + passed non-default' "
-        "uses two different non-default values where the parameter has more than two values). enumerate_cases: the empty "
-        "case, 8 states x 26 parameters, 64 state pairs x 325 parameter pairs (exhaustive); strategy: full assignments "
+        "uses two different non-default values where the parameter has more than two values). enumerate_cases (exhaustive): "
+        "the empty case, 8 states x 26 parameters, 64 state pairs x every parameter pair - thorough tier: all 325 pairs "
+        "(21009 cases), quick tier: the 210 pairs of the 21 parameters that runpp derives values from or cross-checks, "
+        "i.e. without the 5 pure pass-through kwargs switch_rx_ratio, delta_q, trafo3w_losses, v_debug, "
+        "neglect_open_switch_branches (13649 cases); strategy: full assignments over all 26 parameters "
         "(each parameter independently absent / passed / stored / both, incl. alternative values), constructed so that "
         "most effective option sets are accepted by runpp. Fixed 7-bus network on which every option is observable "
         "(slack angle 5 degree, 2W trafo with magnetising branch, 3W trafo, ZIP load, impedance switch, open line switch, gen with "
@@ -39,7 +42,10 @@ RULE = ("Case = {stored: {param: value}, passed: {param: value}} over the 26 run
         "**passed) vs runpp(net, **{**stored, **passed}): same outcome class, equal _options on the reference keys, "
         "equal result tables and trafo.tap_pos. Non-trivial = both runs completed and at least one stored option "
         "either applies (not passed, differs from the function default) or conflicts with the passed value; "
-        "distinct by case hash.")
+        "distinct by case hash. A disagreeing case is attributed to root causes: every stored parameter is re-checked "
+        "on its own (signature = mechanism: passed-default-ignored/<kind>, stored-raw-value-overwrites-processed-option, "
+        "stored-option-not-applied/<param>, ...), then the rest - blamed parameters passed explicitly instead - is "
+        "re-checked and greedily minimised (signature interaction/<params>), so known root causes do not hide others.")
 ASSUMPTIONS = ["both sides are pandapower (the property is differential); the reference side never has user_pf_options",
                "result tolerance 1e-9 abs / 1e-9 rel (same code path, same options => same floating point results)",
                "identical documented rejections (ValueError / NotImplementedError / UserWarning) and non-convergence on "
@@ -120,8 +126,18 @@ def _eff(state):
     return p if p != "a" else s
 
 
+# keyword arguments that _init_runpp_options only hands through to net._options (no derived value, no consistency
+# check, no interplay with another option): in the quick tier they are enumerated alone, not in pairs
+PASS_THROUGH = ("switch_rx_ratio", "delta_q", "trafo3w_losses", "v_debug", "neglect_open_switch_branches")
+
+
+def pair_names(tier):
+    return NAMES if tier == "thorough" else [n for n in NAMES if n not in PASS_THROUGH]
+
+
 def enumerate_cases(tier):
-    """empty case, all 8 states of every parameter, all 64 state pairs of every parameter pair.
+    """empty case, all 8 states of every parameter, all 64 state pairs of every parameter pair (quick tier: pairs of the
+    21 parameters that are not mere pass-through options, see PASS_THROUGH; thorough tier: all 26 parameters).
     Order inside a pair block: the 16 cases with the same effective (merged) values sit at positions j with equal
     (j % 16) // 4, so that a shard (index % nshards, nshards | 16) meets few distinct reference runs per block."""
     yield _mk_case([])
@@ -129,7 +145,7 @@ def enumerate_cases(tier):
         for s, p in STATES:
             yield _mk_case([(name,) + state_values(name, s, p)])
     combos = [(e1, e2) for e1 in "dn" for e2 in "dn"]
-    for n1, n2 in itertools.combinations(NAMES, 2):
+    for n1, n2 in itertools.combinations(pair_names(tier), 2):
         groups = {c: [] for c in combos}
         for st1, st2 in itertools.product(STATES, STATES):
             groups[(_eff(st1), _eff(st2))].append((st1, st2))
@@ -269,9 +285,21 @@ def build_net():
     return net
 
 
+def _assert_signature():
+    """the 'function default' state must be the real default of the runpp under test"""
+    import inspect
+    import pandapower as pp
+    sig = inspect.signature(pp.runpp)
+    named = {k: v.default for k, v in sig.parameters.items() if v.default is not inspect.Parameter.empty}
+    mine = {k: v[1] for k, v in PARAMS.items() if v[0] == "named"}
+    if named != mine:
+        raise RuntimeError("runpp signature differs from the C34 parameter table: %r vs %r" % (named, mine))
+
+
 def fresh_net():
     global _NET
     if _NET is None:
+        _assert_signature()
         with silence():
             _NET = build_net()
     return copy.deepcopy(_NET)
@@ -507,10 +535,20 @@ def check(case):
     else:
         d2 = d
     if d2 is not None and d2.bad:
-        parts = ["%s:S%sP%s" % ((n,) + param_state(n, case)) for n in involved if n in rest_stored]
-        others = ["%s:S%sP%s" % ((n,) + param_state(n, case)) for n in involved if n not in rest_stored]
-        sig = "interaction/" + ("+".join(parts) if len(parts) <= 3 else "%d-stored-parameters" % len(parts))
-        if len(parts) <= 1 and len(others) <= 2:
-            sig += "|" + "+".join(others)
-        res.fail(sig, case=case, **d2.detail())
+        # reduce to a 1-minimal set of parameters that still disagrees (greedy removal, at most one pass)
+        cur_s = dict(rest_stored)
+        cur_p = {**passed, **{n: merged[n] for n in blamed}}
+        dmin = d2
+        for n in [m for m in NAMES if m in cur_s or m in cur_p]:
+            s2 = {k: v for k, v in cur_s.items() if k != n}
+            p2 = {k: v for k, v in cur_p.items() if k != n}
+            if not s2 or len(s2) + len(p2) == len(cur_s) + len(cur_p):
+                continue
+            dn = Disc(s2, p2)
+            if dn.bad:
+                cur_s, cur_p, dmin = s2, p2, dn
+        names = sorted(set(cur_s) | set(cur_p))
+        res.fail("interaction/" + "+".join(names), minimal={"stored": cur_s, "passed": cur_p},
+                 states={n: "S%sP%s" % param_state(n, {"stored": cur_s, "passed": cur_p}) for n in names},
+                 **dmin.detail())
     return res
